@@ -51,6 +51,10 @@ def call_work(inp):
         rng.seed_real(inp.get("seed", 0))
         law = {call(): 0}
         known = False
+    if inp.get("tiny_nonint"):
+        # weights an integer plus 1e-10 .. a half on top of 2e9: outside TLC's range, and not needed by it -- for a non-integer pile the
+        # specification's verdict depends only on `nonint` (computed above from the exact inputs) and on the class of the outcome
+        base["bag"], base["tally"] = [], [1, 1]
     out = []
     for (res, err), pr in sorted(law.items()):
         t = dict(base)
@@ -118,6 +122,13 @@ def call_corpus(tier, seed):
         surplus = rng.choice([rng.randint(0, tally - 1), max(0, min(tally - 1, transferable + rng.randint(-2, 2))), rng.randint(0, min(tally - 1, 20))])
         inputs.append({"op": "random", "cands": cands, "ballots": bl, "winner": w0, "tally": [tally, 1], "thr": tally - surplus, "aslist": rng.random() < 0.5,
                        "seed": rng.randrange(10**6), "big": True})
+    # ... and by the smallest margins: an integer plus 1e-10, plus 1e-15, minus 1e-12
+    for _ in range(30 if q else 300):
+        eps = rng.choice([F(1, 10**10), F(1, 10**15), F(-1, 10**12)])
+        wgt = rng.choice([F(3) + eps, F(1) + abs(eps), F(200) + eps, F(12) + eps])      # (kept small: an accepted pile is expanded into unit ballots)
+        bag = [{"r": [["A"], ["B"]], "w": rat(wgt)}, {"r": [["A"], ["C"]], "w": [2, 1]}, {"r": [["B"]], "w": [1, 1]}][:rng.randint(1, 3)]
+        inputs.append({"op": "random", "cands": c3, "ballots": bag, "winner": "A", "tally": rat(sum(F(*b["w"]) for b in bag if b["r"][0] == ["A"])),
+                       "thr": 1, "seed": 1, "tiny_nonint": True, "big": True})
     # the documented rejection: non-integer weights under the random rule
     for _ in range(20 if q else 200):
         bag = D.random_bag(rng, c3, 3, rational=1.0, wmax=2, min_ballots=1)
